@@ -372,6 +372,8 @@ def shapes():
         "e_gen": lambda: TypeSpec("enum", [Variant("A", "tuple", [F(None, "A")]), Variant("B", "named", [F("a", "A"), F("b", "u8")])],
                                   [("A: P", "u8")], shape="e_gen"),
         "s_po": lambda: S("named", [F("a", "Po"), F("b", "u8")], "s_po"),
+        "s_nr": lambda: S("named", [F("a", "u8"), F("b", "Nr"), F("c", "u8")], "s_nr"),
+        "e_nr": lambda: TypeSpec("enum", [Variant("A", "tuple", [F(None, "Nr")]), Variant("B", "unit", [])], shape="e_nr"),
         # field types that merely mention PhantomData / are zero-sized markers next to real data (no attribute is put on them: they have no key)
         "s_marker": lambda: S("named", [F("a", "u8"), F("m", "(u8, core::marker::PhantomData<u16>)"), F("o", "Option<core::marker::PhantomData<u8>>"), F("b", "u8")], "s_marker"),
         # explicit discriminants that disagree with the declaration order (the documentation orders by position)
